@@ -969,9 +969,16 @@ const (
 
 var evStalls int32
 
+// evHolding: a reply of the fake node is being held back (the watcher's own timeout for that call is 15 s), so
+// waits made meanwhile give up earlier than that (still 10000x the nominal latency).
+var evHolding int32
+
 func evCurDeadline() time.Duration {
 	if atomic.LoadInt32(&evStalls) > 0 {
 		return evShortDeadline
+	}
+	if atomic.LoadInt32(&evHolding) > 0 {
+		return evDeadline / 2
 	}
 	return evDeadline
 }
@@ -1121,6 +1128,8 @@ func (r *evRun) pushLog(st evStep) bool {
 		return false
 	}
 	if hold {
+		atomic.StoreInt32(&evHolding, 1)
+		defer atomic.StoreInt32(&evHolding, 0)
 		// LogReceived .. PendingStored with the chain moving in between: the reply to the block lookup is held
 		// while the scripted heads are polled and scanned (if the poller runs) - a gate, not a sleep
 		if !r.waitFor(func() bool { n.mu.Lock(); defer n.mu.Unlock(); return n.holdArrived }) {
